@@ -20,13 +20,17 @@ use crate::scn_pair::loose_belief;
 use crate::scn_vault::{direct_loan, vault_deposit, RepayKind, Step, VH, VaultRoot};
 use crate::world::{coin, kv_equal, Snapshot, World, GENESIS_TIME_NS};
 
-const WHALE: &str = "uwhale";
+const UWHALE: &str = "uwhale";
+/// an ibc voucher denom as distribution asset: 'ibc/' + 64 hex digits
+const IBC_WHALE: &str = "ibc/EDD6F0D66BCD49C1084FB2C35353B4ACD7B9191117CE63671B61320548F7C89D";
 const USDC: &str = "uusdc";
 const DAO: &str = "dao";
 const E1_TOTAL: u128 = 777;
 
 #[derive(Clone)]
 pub struct Base {
+    /// denom of the distribution asset (uwhale, or an ibc voucher denom)
+    whale: String,
     hub: FeeHub,
     pair_a: PairH,
     pair_b: PairH,
@@ -57,14 +61,29 @@ fn vault_handle(w: &mut World, hub: &FeeHub, asset: AssetInfo, fees: Fee3) -> VH
 }
 
 pub fn build_base() -> Base {
+    build_base_with(UWHALE)
+}
+
+pub fn build_base_with(whale_denom: &str) -> Base {
+    #[allow(non_snake_case)]
+    let WHALE = whale_denom;
     let mut w = World::new();
     let genesis = GENESIS_TIME_NS + 1_000_000_000;
-    let hub = deploy_fee_hub(&mut w, &HubOpts::basic(genesis, 1));
+    let mut opts = HubOpts::basic(genesis, 1);
+    opts.distribution = native(WHALE);
+    if !opts.native_decimals.iter().any(|(d, _)| d == WHALE) {
+        opts.native_decimals.push((WHALE.to_string(), 6));
+    }
+    let hub = deploy_fee_hub(&mut w, &opts);
     let tok_b = w.new_cw20("tbb", 6, &[], OWNER);
     let fees = Fee3::new(ONE18 / 100, 0, 0);
     for u in [ALICE, BOB, MALLORY] {
         for d in [WHALE, USDC] {
             w.mint_native(u, 1u128 << 100, d);
+        }
+        if WHALE != BD[0] {
+            // the bonding asset stays uwhale
+            w.mint_native(u, 1u128 << 100, BD[0]);
         }
         fund(&mut w, &token(&tok_b), u, 1u128 << 100);
     }
@@ -93,7 +112,7 @@ pub fn build_base() -> Base {
     w.exec_cosmos(MALLORY, BankMsg::Send { to_address: hub.collector.clone(), amount: vec![coin(E1_TOTAL, WHALE)] }.into()).unwrap();
     w.exec(MALLORY, &hub.distributor, &DistExec::NewEpoch {}, &[]).expect("epoch 1");
     let snap = w.snapshot();
-    Base { hub, pair_a, pair_b, tok_b, vault_w, vault_a, snap }
+    Base { whale: WHALE.to_string(), hub, pair_a, pair_b, tok_b, vault_w, vault_a, snap }
 }
 
 #[derive(Clone, Copy, Debug)]
@@ -183,6 +202,8 @@ struct Obs {
 }
 
 fn observe(w: &World, bs: &Base) -> Obs {
+    #[allow(non_snake_case)]
+    let WHALE = bs.whale.as_str();
     let tb = token(&bs.tok_b);
     let assets = [native(WHALE), native(USDC), tb];
     let coll = [info_balance(w, &assets[0], &bs.hub.collector), info_balance(w, &assets[1], &bs.hub.collector), info_balance(w, &assets[2], &bs.hub.collector)];
@@ -199,6 +220,8 @@ fn observe(w: &World, bs: &Base) -> Obs {
 }
 
 pub fn run_cfg(w: &mut World, bs: &Base, c: &Cfg, cx: &mut Cx) {
+    #[allow(non_snake_case)]
+    let WHALE = bs.whale.as_str();
     w.restore(&bs.snap);
     let hub = &bs.hub;
     pair_fee_state(w, &bs.pair_a, c.pair_a);
@@ -344,7 +367,7 @@ pub fn run_cfg(w: &mut World, bs: &Base, c: &Cfg, cx: &mut Cx) {
             }
             let hist: Result<Coin, String> = w.query(&hub.collector, &CollQuery::TakeRateHistory { epoch_id: Uint64::new(2) });
             if want_dao > 0 {
-                cx.check("take_rate.recorded_per_epoch", hist.as_ref().map(|c| c.amount.u128()).ok() == Some(want_dao), || format!("TakeRateHistory(2) = {:?}, expected {}", hist, want_dao));
+                cx.check("take_rate.recorded_per_epoch", hist.as_ref().map(|c| (c.amount.u128(), c.denom.as_str())).ok() == Some((want_dao, WHALE)), || format!("TakeRateHistory(2) = {:?}, expected {} {}", hist, want_dao, WHALE));
             } else {
                 cx.check("take_rate.recorded_per_epoch", hist.is_err() || hist.as_ref().map(|c| c.amount.is_zero()).unwrap_or(false), || format!("TakeRateHistory(2) = {:?} although nothing was taken", hist));
             }
@@ -384,6 +407,24 @@ pub fn run(tier: &str, seed: u64) -> i32 {
     let cfgs = all_cfgs();
     let res = par_index_with(cfgs.len(), 3, World::new, |i, cx, w| run_cfg(w, &base, &cfgs[i], cx));
     let n = cfgs.len();
+    // the same hub with an ibc voucher denom as distribution asset, on the sub-grid without faults and vault fees
+    {
+        let base_ibc = build_base_with(IBC_WHALE);
+        let sub: Vec<Cfg> = all_cfgs().into_iter().filter(|c| c.fault == 0 && c.vault_w == 0 && c.vault_a == 0).collect();
+        let res = par_index_with(sub.len(), 3, World::new, |i, cx, w| run_cfg(w, &base_ibc, &sub[i], cx));
+        let m = sub.len();
+        ev.add_grid_result(
+            "pipeline-configurations-ibc-distribution-asset",
+            "distribution asset = an ibc voucher denom: pair A/B fee states x take rates x routes, no faults, no vault fees",
+            res,
+            &|i| {
+                let mut v = cfg_json(&sub[i]);
+                v["distribution_asset"] = json!(IBC_WHALE);
+                v
+            },
+            &[0, m / 2, m - 1],
+        );
+    }
     ev.add_grid_result(
         "pipeline-configurations",
         "full product: pair A/B fee state {0,<1000,>1000 both sides,mixed}^2 x vault W/A fee state {0,500,5000}^2 x take rate {inactive,0,1e-18,1%,50%,1-1e-18} x routes {both,none,A,B} x fault {none, pair A swaps disabled, A hop exceeds max spread, B hop exceeds max spread, none with a 1e21 balance}",
@@ -403,7 +444,10 @@ pub fn run(tier: &str, seed: u64) -> i32 {
 
 pub fn replay(doc: &Value) -> bool {
     let c = cfg_from(&doc["point"]);
-    let base = build_base();
+    let base = match doc["point"]["distribution_asset"].as_str() {
+        Some(d) => build_base_with(d),
+        None => build_base(),
+    };
     let mut w = World::new();
     let mut cx = Cx { verbose: true, ..Default::default() };
     println!("configuration {:?}", c);
